@@ -127,20 +127,27 @@ def make(tname):
             declared = g.pick(['none', 'same as first', 'other'], 'declared site') if k else 'none'
             dsite = None if declared == 'none' else (sites[0] if declared == 'same as first' else g.atom('declared'))
             forb = g.pick([None, 'controller_url'], 'a constrained property')
-            return [PList(kinds), PList(sites), dsite, forb], {}
+            moved = g.atom('moved_to') if (k and dsite is None and g.choice(2, 'first node moves afterwards?') == 0) else None
+            return [PList(kinds), PList(sites), dsite, forb, moved], {}
 
-        def body(self, h, kinds, sites, dsite, forb):
+        def body(self, h, kinds, sites, dsite, forb, moved):
             kinds, sites = topo.pylist(kinds), topo.pylist(sites)
             topo.fresh_world(h)
             t = h.call(ExperimentTopology)
             ifs = []
+            nodes = []
+            # names are unique in their scope only: the first two nodes are called so that "<node>-<card>-p1" is the SAME text
+            # for both (service ports are named after it), the third repeats the card name of the first
+            NAMES = [('ww-1', 'nic'), ('ww', '1-nic'), ('n2', 'nic')] if moved is None else [('n0', 'nic'), ('n1', 'nic'), ('n2', 'nic')]
+            # (with the colliding names the topology-wide service view, a dictionary keyed by name, shows one of the two
+            #  card-internal services only; the repeated-validation scenario keeps derived names distinct)
             for i, (kd, s) in enumerate(zip(kinds, sites)):
-                n = h.call(h.getattr(t, 'add_node'), name=f'n{i}', site=s)
-                # component names are unique within a node only: every node calls its card "nic", so the connected interfaces
-                # of different nodes carry the same name
-                c = h.call(h.getattr(n, 'add_component'), name='nic',
+                nname, cname = NAMES[i]
+                n = h.call(h.getattr(t, 'add_node'), name=nname, site=s)
+                nodes.append(n)
+                c = h.call(h.getattr(n, 'add_component'), name=cname,
                            model_type=CMT('SharedNIC_ConnectX_6') if kd == 'SharedPort' else CMT('SmartNIC_ConnectX_6'))
-                ifs.append(topo.iface(h, c, 'nic-p1'))
+                ifs.append(topo.iface(h, c, cname + '-p1'))
             kw = {}
             if dsite is not None:
                 kw['site'] = dsite
@@ -149,17 +156,23 @@ def make(tname):
             st, ns = h.attempt(h.getattr(t, 'add_network_service'), name='svc', nstype=stype,
                                interfaces=PList(ifs) if h.mode == 'sym' else ifs, **kw)
             if st == 'exc':
-                return ('refused at connect', None)
+                return ('refused at connect', None, None)
             st, _ = h.attempt(h.getattr(t, 'validate'))
             site_after = h.getattr(ns, 'site')
-            return ('valid' if st == 'ok' else 'invalid', site_after)
+            again = None
+            if moved is not None and nodes:
+                # history: the first node moves to another site, the SAME topology object is validated again
+                h.setattr(nodes[0], 'site', moved)
+                st2, _ = h.attempt(h.getattr(t, 'validate'))
+                again = 'valid' if st2 == 'ok' else 'invalid'
+            return ('valid' if st == 'ok' else 'invalid', site_after, again)
 
         @staticmethod
         def _c(pre, post):
             if not returned(post):
                 return False
-            kinds, sites, dsite, forb = [topo.pylist(x) if i < 2 else x for i, x in enumerate(pre.args)]
-            outcome, site_after = post.result
+            kinds, sites, dsite, forb, moved = [topo.pylist(x) if i < 2 else x for i, x in enumerate(pre.args)]
+            outcome, site_after, again = post.result
             guard = tname == 'L2PTP' and 'SharedPort' in kinds
             if outcome == 'refused at connect':
                 return guard                  # only what the type cannot support is refused at once
@@ -172,12 +185,29 @@ def make(tname):
             if not returned(post):
                 return False
             kinds, sites = topo.pylist(pre.args[0]), topo.pylist(pre.args[1])
-            outcome, site_after = post.result
+            outcome, site_after, again = post.result
             if outcome != 'valid' or not sites or PINNED[tname]['sites'] == NO:
                 return True
             return Implies(eq(distinct_count(sites), 1), eq(site_after, sites[0]))
 
+        @staticmethod
+        def _again(pre, post):
+            """after a node moved, validating the same topology object judges the NEW placement (a site recorded by the
+            earlier validation counts as the declared site from then on)"""
+            if not returned(post):
+                return False
+            kinds, sites, dsite, forb, moved = [topo.pylist(x) if i < 2 else x for i, x in enumerate(pre.args)]
+            outcome, site_after, again = post.result
+            if again is None or outcome != 'valid':
+                return True           # (a failed validation may have recorded some sites and not others: not specified)
+            new_sites = [moved] + list(sites[1:])
+            # the successful first validation recorded the site of every single-site service, the card-internal service of the
+            # moved node included; a recorded site counts as declared from then on, so the card's own service now disagrees
+            # with its node unless the node "moved" to where it was
+            return Iff(again == 'valid', And(oracle(tname, new_sites, kinds, site_after, forb), eq(moved, sites[0])))
+
         ensures = {'validate.iff_table_allows': lambda pre, post: V._c(pre, post),
+                   'validate.judges_the_current_placement_when_repeated': lambda pre, post: V._again(pre, post),
                    'site.recorded_on_single_site_service': lambda pre, post: V._site(pre, post)}
     V.__name__ = f'Validate_{tname}'
     return V
